@@ -1,0 +1,48 @@
+//go:build verif
+
+// Contracts for the deductive checker in /verif (govc). Comment-only; ignored without the
+// "verif" build tag.
+//
+// C19 (keybase half): a stored key is deleted or re-encrypted only after its armor decrypted
+// under the presented passphrase; a failed call performs no database write at all.
+// kbdb.writes / kbdb.op observe the database (see /verif/spec/extern/tmdb.go.txt);
+// decrypt_ok(armor, pass) is the (uninterpreted) outcome of mintkey.UnarmorDecryptPrivKey.
+
+package keys
+
+//@ ghost kbdb.writes Int
+//@ ghost kbdb.op Int
+
+//@ assumed func (kb dbKeybase) Get(address types.Address) (kp KeyPair, err error)
+//@   mode value
+//@   ensures (err == nil) == kb_present(address)
+//@   ensures err == nil ==> kp.PrivKeyArmor == kb_armor(address)
+
+//@ func (kb dbKeybase) Delete(address types.Address, passphrase string) (err error)
+//@   props C19
+//@   modifies kbdb.writes, kbdb.op
+//@   ensures [guarded] kbdb.writes != old(kbdb.writes) ==> kb_present(address) && decrypt_ok(kb_armor(address), passphrase)
+//@   ensures [failed] err != nil ==> kbdb.writes == old(kbdb.writes)
+//@   ensures [done] err == nil ==> kbdb.writes == old(kbdb.writes) + 1 && kbdb.op == 2
+//@
+//@ func (kb dbKeybase) Update(address types.Address, oldpass string, newpass string) (err error)
+//@   props C19
+//@   modifies kbdb.writes, kbdb.op
+//@   ensures [guarded] kbdb.writes != old(kbdb.writes) ==> kb_present(address) && decrypt_ok(kb_armor(address), oldpass)
+//@   ensures [failed] err != nil ==> kbdb.writes == old(kbdb.writes)
+//@   ensures [done] err == nil ==> kbdb.writes == old(kbdb.writes) + 1 && kbdb.op == 1
+//@
+//@ func (kb dbKeybase) Sign(address types.Address, passphrase string, msg []byte) (sig []byte, pub crypto.PublicKey, err error)
+//@   props C19
+//@   ensures err == nil ==> kb_present(address) && decrypt_ok(kb_armor(address), passphrase)
+//@   ensures kbdb.writes == old(kbdb.writes)
+//@
+//@ func (kb dbKeybase) ExportPrivateKeyObject(address types.Address, passphrase string) (priv crypto.PrivateKey, err error)
+//@   props C19
+//@   ensures err == nil ==> kb_present(address) && decrypt_ok(kb_armor(address), passphrase)
+//@   ensures kbdb.writes == old(kbdb.writes)
+//@
+//@ func (kb dbKeybase) ExportPrivKeyEncryptedArmor(address types.Address, decryptPassphrase, encryptPassphrase, hint string) (armor string, err error)
+//@   props C19
+//@   ensures err == nil ==> kb_present(address) && decrypt_ok(kb_armor(address), decryptPassphrase)
+//@   ensures kbdb.writes == old(kbdb.writes)
